@@ -462,6 +462,10 @@ func (w *World) heapTypeInv(key string, arr Term, alloc Term) {
 	switch {
 	case el == SSlice:
 		w.sc.raw(fmt.Sprintf("(assert (forall ((ti! %s)) (! (and (<= 0 (sarr %s)) (<= (sarr %s) %s) (<= 0 (soff %s)) (<= 0 (slen %s)) (<= (slen %s) (scap %s)) (=> (= (sarr %s) 0) (= (slen %s) 0))) :pattern (%s))))", idx, x, x, alloc.S, x, x, x, x, x, x, x))
+	case strings.HasSuffix(string(el), " Slice)") && strings.HasPrefix(key, "MapVal!"):
+		ki, _, _ := arrayParts(el)
+		y := fmt.Sprintf("(select (select %s ti!) tk!)", arr.S)
+		w.sc.raw(fmt.Sprintf("(assert (forall ((ti! %s) (tk! %s)) (! (and (<= 0 (sarr %s)) (<= (sarr %s) %s) (<= 0 (soff %s)) (<= 0 (slen %s)) (<= (slen %s) (scap %s)) (=> (= (sarr %s) 0) (= (slen %s) 0))) :pattern (%s))))", idx, ki, y, y, alloc.S, y, y, y, y, y, y, y))
 	case el == SInt && w.heapRef[key]:
 		w.sc.raw(fmt.Sprintf("(assert (forall ((ti! %s)) (! (and (<= 0 %s) (<= %s %s)) :pattern (%s))))", idx, x, x, alloc.S, x))
 	}
